@@ -32,14 +32,16 @@ def pair(draw):
         draw(st.lists(st.sampled_from(sp), min_size=1, max_size=3, unique_by=repr))
     pool = draw(st.sampled_from(list(gen_fa.STATE_POOLS)))
     classes = ("enfa", "enfa", "enfa", "nfa", "dfa")
-    a = draw(gen_fa.fa_desc(max_states=4, max_trans=12, state_pools=[pool], force_syms=sa, classes=classes))
+    a = draw(gen_fa.fa_desc(max_states=4, max_trans=12, state_pools=[pool], force_syms=sa, classes=classes,
+                            big_states=(6, 8, 7, 8)))
     if draw(st.integers(0, 9)) < 3:
         # B is a small edit of A: intersection / difference are then non-trivial
         b = gen_fa.derive_changing(draw, a)
         if draw(st.booleans()):
             b = gen_fa.derive_changing(draw, b)
     else:
-        b = draw(gen_fa.fa_desc(max_states=4, max_trans=12, state_pools=[pool], force_syms=sb, classes=classes))
+        b = draw(gen_fa.fa_desc(max_states=4, max_trans=12, state_pools=[pool], force_syms=sb, classes=classes,
+                                big_states=(6, 8, 7, 8)))
     a["sympool"] = b["sympool"] = sp_name
     if not plain and draw(st.integers(0, 3)) == 0:
         unused = [x for x in sp if x not in sa]
@@ -91,7 +93,8 @@ def run_case(case):
         ("reverse", lambda: A.reverse(), rev, RA.alphabet | foreign),
         ("invert_operator", lambda: ~A, rev, RA.alphabet | foreign),
     ]
-    if case.get("plain"):
+    if case.get("plain") and len(RA.states) <= 6 and len(RB.states) <= 6:
+        # union / concatenate / kleene_star go through state elimination (to_regex): cost explodes on big automata
         checks += [
             ("union", lambda: A.union(B), ref_fa.union(RA, RB), joint | foreign),
             ("concatenate", lambda: A.concatenate(B), ref_fa.concat(RA, RB), joint | foreign),
